@@ -25,88 +25,95 @@ func (urlTree *URLTree[T]) Lookup(url string) LookupResult[T] {
 }
 
 func lookupNode[T any](urlTree *URLTree[T], url string) lookupNodeResult[T] {
-	splitURL := splitURL(url)
-	currentNode := urlTree.Root
-	var params map[string]string
-	var foundWildcardNode *Node[T]
-	// the declared pattern of foundWildcardNode: the path up to its parent plus the wildcard
-	foundWildcardPath := ""
-	urlPath := ""
-	for _, urlPart := range splitURL {
-		// below the root, a path wildcard must not swallow further host labels
-		if currentNode.WildcardChild != nil && (currentNode == urlTree.Root ||
-			currentNode.WildcardChild.IsPartOfHost == urlPart.IsPartOfHost) {
-			foundWildcardNode = currentNode.WildcardChild
-			foundWildcardPath = wildcardPath(urlPath, currentNode.WildcardChild)
-		}
-		child, found := currentNode.ConstantChildren[urlPart.Value]
-		if found && child.IsPartOfHost == urlPart.IsPartOfHost {
-			currentNode = child
-			delimiter := getDelimiter(urlPart)
-			urlPath += delimiter + urlPart.Value
-			continue
-		}
+	result, status := lookupFrom(urlTree, urlTree.Root, splitURL(url), nil, "")
+	if status == lookupMatched {
+		return result
+	}
+	return buildLookupNodeResult(false, urlTree.Root, nil, "")
+}
 
-		parametricChild := currentNode.ParametricChild.Child
-		if parametricChild != nil &&
-			parametricChild.IsPartOfHost == urlPart.IsPartOfHost {
-			if name, isPathParam := TryExtractPathParameter(urlPart.Value); isPathParam {
-				if name != currentNode.ParametricChild.Name {
-					log.Warn().Msgf(
-						"Path parameter name '%v' does not match existing name '%v' in url '%v'",
-						name,
-						currentNode.ParametricChild.Name,
-						url,
-					)
-				}
-			} else {
-				params = ensureInitialized(params)
-				params[currentNode.ParametricChild.Name] = urlPart.Value
+type lookupStatus int
+
+const (
+	lookupMatched lookupStatus = iota
+	// nothing below this node matches: the caller goes on with its next alternative
+	lookupNoMatch
+	// the looked-up URL holds a path parameter the tree has no parametric child for
+	lookupAborted
+)
+
+// lookupFrom matches the remaining URL parts below node. At every node the
+// alternatives are tried from the most to the least specific one - constant child,
+// parametric child, the node's wildcard child - and an alternative that turns out
+// not to lead to a match is abandoned together with the path parameters bound on it.
+func lookupFrom[T any](
+	urlTree *URLTree[T],
+	node *Node[T],
+	parts []urlPart,
+	params map[string]string,
+	urlPath string,
+) (lookupNodeResult[T], lookupStatus) {
+	if len(parts) == 0 {
+		if node.hasValue() {
+			// Non-wildcard match found
+			return buildLookupNodeResult(true, node, params, urlPath), lookupMatched
+		}
+		// Exact value not found, check if node has wildcard child
+		if node.WildcardChild != nil {
+			return buildLookupNodeResult(true, node.WildcardChild, params,
+				wildcardPath(urlPath, node.WildcardChild)), lookupMatched
+		}
+		return lookupNodeResult[T]{}, lookupNoMatch
+	}
+
+	part := parts[0]
+	_, isPathParam := TryExtractPathParameter(part.Value)
+
+	child, found := node.ConstantChildren[part.Value]
+	found = found && child.IsPartOfHost == part.IsPartOfHost
+	if found {
+		result, status := lookupFrom(urlTree, child, parts[1:], params,
+			urlPath+getDelimiter(part)+part.Value)
+		if status != lookupNoMatch {
+			return result, status
+		}
+	}
+
+	parametricChild := node.ParametricChild.Child
+	if parametricChild != nil && parametricChild.IsPartOfHost == part.IsPartOfHost {
+		childParams := params
+		if name, _ := TryExtractPathParameter(part.Value); isPathParam {
+			if name != node.ParametricChild.Name {
+				log.Warn().Msgf(
+					"Path parameter name '%v' does not match existing name '%v'",
+					name,
+					node.ParametricChild.Name,
+				)
 			}
-			urlPath += fmt.Sprintf(
-				"%v{%v}",
-				getDelimiter(urlPart),
-				currentNode.ParametricChild.Name,
-			)
-			currentNode = parametricChild
-			continue
+		} else {
+			childParams = make(map[string]string, len(params)+1)
+			for key, value := range params {
+				childParams[key] = value
+			}
+			childParams[node.ParametricChild.Name] = part.Value
 		}
-
-		if _, isPathParam := TryExtractPathParameter(urlPart.Value); isPathParam {
-			// Lookup with path parameter, but did not find a parametric child
-			return buildLookupNodeResult(false, currentNode, params, urlPath)
+		result, status := lookupFrom(urlTree, parametricChild, parts[1:], childParams,
+			urlPath+fmt.Sprintf("%v{%v}", getDelimiter(part), node.ParametricChild.Name))
+		if status != lookupNoMatch {
+			return result, status
 		}
-
-		if foundWildcardNode != nil {
-			// Didn't find exact value, but found a matching wildcard
-			return buildLookupNodeResult(
-				true,
-				foundWildcardNode,
-				params,
-				foundWildcardPath,
-			)
-		}
-
-		// No match found, return the node that was found with noMatch
-		return buildLookupNodeResult(false, currentNode, params, urlPath)
-	}
-	if currentNode.hasValue() {
-		// Non-wildcard match found
-		return buildLookupNodeResult(true, currentNode, params, urlPath)
-	}
-	// Exact value not found, check if node has wildcard child
-	if currentNode.WildcardChild != nil {
-		return buildLookupNodeResult(
-			true, currentNode.WildcardChild, params,
-			wildcardPath(urlPath, currentNode.WildcardChild))
-	}
-	// Check if a matching wildcard was found in a parent node
-	if foundWildcardNode != nil {
-		return buildLookupNodeResult(true, foundWildcardNode, params, foundWildcardPath)
+	} else if isPathParam && !found {
+		// Lookup with path parameter, but did not find a parametric child
+		return lookupNodeResult[T]{}, lookupAborted
 	}
 
-	// No match found, return the node that was found with noMatch
-	return buildLookupNodeResult(false, currentNode, params, urlPath)
+	// below the root, a path wildcard must not swallow further host labels
+	if node.WildcardChild != nil && (node == urlTree.Root ||
+		node.WildcardChild.IsPartOfHost == part.IsPartOfHost) {
+		return buildLookupNodeResult(true, node.WildcardChild, params,
+			wildcardPath(urlPath, node.WildcardChild)), lookupMatched
+	}
+	return lookupNodeResult[T]{}, lookupNoMatch
 }
 
 func wildcardPath[T any](parentPath string, wildcardNode *Node[T]) string {
